@@ -441,7 +441,9 @@ Proof.
   apply andb_prop in Hrange. destruct Hrange as [Hr0 _]. apply Z.leb_le in Hr0.
   destruct ((eseq e <? 2) || mtracked m (eseq e)).
   - apply box_item_inv; auto.
-  - destruct (ustart (upd_of e) =? base c (eseq e)); [|exact HI].
+  - destruct (dormant c (eseq e)).
+    { apply box_item_inv; auto. apply chan_diff_inv; auto. apply set_tracked_inv; auto. }
+    destruct (ustart (upd_of e) =? base c (eseq e)); [|exact HI].
     apply box_item_inv; auto. apply chan_diff_inv; auto. apply set_tracked_inv.
     apply emit_persist_inv; auto. intros; lia.
 Qed.
@@ -487,6 +489,8 @@ Proof.
   - assert (H : Inv c log (get_diff (fuel_of log) c log vis m)) by (apply get_diff_inv; auto).
     revert H. generalize (get_diff (fuel_of log) c log vis m). induction (filter (tracked0 c) (chan_seqs c)); intros m0 H0; cbn [fold_left]; auto.
     apply IHl. apply chan_diff_inv; auto.
+  - repeat apply clear_gaps_inv. exact HI.
+  - destruct (_ && _); auto. apply clear_gaps_inv; auto.
 Qed.
 
 Lemma mrun_from_inv : forall c log ops m, wf_log log -> Inv c log m -> Inv c log (fold_left (mstep c log) ops m).
@@ -638,7 +642,7 @@ Proof. intros c log ops pre post Hwf E. eapply (inv_safe c log _ (mrun_inv c log
 (* C03 restart: crash after any prefix, restart from the persisted positions of that prefix,
    recover: both runs together account for the whole log up to the horizon *)
 Definition rebase (c : config) (b : Z -> Z) : config :=
-  {| nseq := nseq c; base := b; tracked0 := tracked0 c; cutf := cutf c; tlf := tlf c; ccutf := ccutf c; ctlf := ctlf c |}.
+  {| nseq := nseq c; base := b; tracked0 := tracked0 c; dormant := dormant c; cutf := cutf c; tlf := tlf c; ccutf := ccutf c; ctlf := ctlf c |}.
 Lemma rebase_ok : forall c b, server_ok c -> server_ok (rebase c b).
 Proof. intros c b H. constructor; simpl; apply H. Qed.
 
@@ -673,7 +677,8 @@ Qed.
 
 (* ---------- manager-level at most once (C01 at the handler) ---------- *)
 Definition op_vis (o : mop) : Z -> Z :=
-  match o with MPushC v _ _ _ _ | MTooLong v | MChanTooLong v _ | MTimerCommon v | MTimerChan v _ | MStartup v => v end.
+  match o with MPushC v _ _ _ _ | MTooLong v | MChanTooLong v _ | MTimerCommon v | MTimerChan v _ | MStartup v
+                | MFailCommon v | MFailChan v _ => v end.
 (* a container that triggers a recovery (updatePtsChanged) does so with positions not beyond the horizon *)
 Definition mid_ok (c : config) (log : list entry) (m : mgr) (o : mop) : Prop :=
   match o with
@@ -1109,8 +1114,12 @@ Proof.
   apply andb_prop in Hrange. destruct Hrange as [Hr0 Hr1]. apply Z.leb_le in Hr0. apply Z.ltb_lt in Hr1.
   destruct ((eseq e <? 2) || mtracked m (eseq e)) eqn:Et.
   - apply (box_item_inv2 c); auto.
-  - destruct (ustart (upd_of e) =? base c (eseq e)); [|exact H2].
-    apply orb_false_elim in Et. destruct Et as [Et1 Et2]. apply Z.ltb_ge in Et1.
+  - apply orb_false_elim in Et. destruct Et as [Et1 Et2]. apply Z.ltb_ge in Et1.
+    destruct (dormant c (eseq e)).
+    { apply (box_item_inv2 c); auto.
+      - apply chan_diff_inv; auto. apply set_tracked_inv; auto.
+      - apply chan_diff_inv2; auto; [apply set_tracked_inv2; auto|]. apply (Hn (eseq e)); auto; lia. }
+    destruct (ustart (upd_of e) =? base c (eseq e)); [|exact H2].
     set (m0 := set_tracked (emit m [Persist (eseq e) (base c (eseq e))]) (eseq e)).
     assert (HI0 : Inv c log m0).
     { apply set_tracked_inv. apply emit_persist_inv; auto. intros; lia. }
@@ -1131,11 +1140,17 @@ Proof.
   destruct (Z.eq_dec s (eseq e)) as [->|Hne].
   - destruct ((eseq e <? 2) || mtracked m (eseq e)) eqn:Et.
     + rewrite mtracked_box_item in Ht. apply orb_true_iff in Et. destruct Et as [Et|Et]; [apply Z.ltb_lt in Et; lia|congruence].
-    + destruct (ustart (upd_of e) =? base c (eseq e)); [|apply Hn; auto].
+    + destruct (dormant c (eseq e)).
+      { rewrite mtracked_box_item, mtracked_chan_diff in Ht. simpl in Ht. rewrite Z.eqb_refl in Ht. discriminate. }
+      destruct (ustart (upd_of e) =? base c (eseq e)); [|apply Hn; auto].
       rewrite mtracked_box_item, mtracked_chan_diff in Ht. simpl in Ht. rewrite Z.eqb_refl in Ht. discriminate.
   - destruct ((eseq e <? 2) || mtracked m (eseq e)).
     + rewrite mtracked_box_item in Ht. rewrite mbox_box_item_other; auto.
-    + destruct (ustart (upd_of e) =? base c (eseq e)); [|apply Hn; auto].
+    + destruct (dormant c (eseq e)).
+      { rewrite mtracked_box_item, mtracked_chan_diff in Ht. simpl in Ht.
+        destruct (Z.eqb_spec s (eseq e)); [contradiction|].
+        rewrite mbox_box_item_other, chan_diff_other; auto. simpl. apply Hn; auto. }
+      destruct (ustart (upd_of e) =? base c (eseq e)); [|apply Hn; auto].
       rewrite mtracked_box_item, mtracked_chan_diff in Ht. simpl in Ht.
       destruct (Z.eqb_spec s (eseq e)); [contradiction|].
       rewrite mbox_box_item_other, chan_diff_other; auto. simpl. apply Hn; auto.
@@ -1214,6 +1229,16 @@ Proof.
     + apply chan_diff_inv2; auto; [destruct (Hv0 s (or_introl eq_refl)); lia|apply Hv0; simpl; auto].
     + intros s1 Hs1. destruct (Hv0 s1 (or_intror Hs1)) as [A B]. split; auto.
       rewrite chan_diff_other; auto. intros ->; contradiction.
+  - apply (inv2_step log m _ []); auto.
+    + intros s _. rewrite !bstate_clear_gaps. lia.
+    + simpl. rewrite app_nil_r. reflexivity.
+    + simpl. constructor.
+    + intros s id [].
+  - destruct (_ && _); auto. apply (inv2_step log m _ []); auto.
+    + intros s1 _. rewrite !bstate_clear_gaps. lia.
+    + simpl. rewrite app_nil_r. reflexivity.
+    + simpl. constructor.
+    + intros s1 id [].
 Qed.
 
 Lemma mrun_from_inv2 : forall c log ops m,
@@ -1397,6 +1422,9 @@ Lemma push_item_moof : forall c log vis m e, server_ok c -> moof m = false -> mo
 Proof.
   intros c log vis m e Hok Hm. unfold push_item.
   destruct (_ && _); auto. destruct (_ || _); [rewrite moof_box_item; auto|].
+  destruct (dormant _ _).
+  { rewrite moof_box_item. apply chan_diff_fuel; [exact Hok|exact Hm|].
+    unfold fuel_of. match goal with |- (length (pend ?l ?s ?a ?b) + 1 <= _)%nat => pose proof (pend_le_log l s a b) end. lia. }
   destruct (_ =? _); auto. rewrite moof_box_item. apply chan_diff_fuel; [exact Hok|exact Hm|].
   unfold fuel_of. match goal with |- (length (pend ?l ?s ?a ?b) + 1 <= _)%nat => pose proof (pend_le_log l s a b) end. lia.
 Qed.
@@ -1436,6 +1464,8 @@ Proof.
   - assert (H : moof (get_diff (fuel_of log) c log vis m) = false) by (apply get_diff_fuel_log; auto).
     revert H. generalize (get_diff (fuel_of log) c log vis m). induction (filter (tracked0 c) (chan_seqs c)) as [|s t IHl]; intros m0 H0; cbn [fold_left]; auto.
     apply IHl. apply chan_diff_fuel_log; auto.
+  - exact Hm.
+  - destruct (_ && _); auto.
 Qed.
 
 Theorem never_out_of_fuel : forall c log ops, server_ok c -> moof (mrun c log ops) = false.
@@ -1514,7 +1544,7 @@ Proof.
 Qed.
 
 (* the harness's fake server (limits / thresholds) satisfies the contract *)
-Lemma std_server_ok : forall n b tr sl tl csl ctl, server_ok (std_config n b tr sl tl csl ctl).
+Lemma std_server_ok : forall n b tr dm sl tl csl ctl, server_ok (std_config n b tr dm sl tl csl ctl).
 Proof.
   intros. constructor; simpl.
   - intros. eapply slice_cut2_final; eauto.
